@@ -67,14 +67,14 @@ def run(ck):
         cfg, expect = job
         if expect is None:
             return ck.tlc_model("RangeMC", cfg, timeout=2400, workers=4)
-        r = ck.tlc("RangeMC", cfg, timeout=600, workers=2, count=False)
+        r = ck.tlc("RangeMC", cfg, timeout=2400, workers=2, count=False)
         if r.kind != "invariant" or r.name != expect:
             raise vkit.Infra("as-found model %s did not show the expected deviation (%s %s)" % (cfg, r.kind, r.name))
         ck.log("TLC RangeMC/%s (deviation switch on): %s" % (cfg, r.summary()))
         return r
 
     def apa_job(_):
-        ok, bad, out = ck.apalache("RangeApa", ["--cinit=CInit", "--init=Init", "--next=Next", "--inv=Everything", "--length=0"], timeout=1500)
+        ok, bad, out = ck.apalache("RangeApa", ["--cinit=CInit", "--init=Init", "--next=Next", "--inv=Everything", "--length=0"], timeout=2700)
         if not ok:
             raise vkit.Infra("Apalache did not prove the 64-bit agreement / clamp lemma (%s)\n%s" % ("counterexample" if bad else "failure", vkit.tail(out, 3000)))
         return out
